@@ -67,13 +67,34 @@ def two_step_cases(bases):
     return out
 
 
+def slot_boundary_cases(rng):
+    """allocation around the reserved slot 64 ("Anywhere") on a table that does NOT define it: one authored location
+    carrying a number just behind it (65, 66) or in front of it (63), and enough index-less ones to use up every free
+    slot below 64 and go on behind it"""
+    import random
+    import scenarios as SC
+    out = []
+    for carried, density in ((65, 0.0), (66, 0.05), (63, 0.0), (65, 0.3)):
+        base = SC.MapGen(random.Random(rng.randrange(10 ** 9)), "editor", nloc=255, no_anywhere=True, all_sections=True,
+                         loc_density=density, ntrig=1).build()
+        locs = [[10, 10, 20 + carried, 30, None, carried, [False] * 6]]
+        locs += [[100 + k, 200, 300 + k, 400 + k, None, None, [True] * 6] for k in range(68)]
+        trigs = []
+        for lo in range(0, len(locs), 60):
+            trigs.append({"conds": [], "players": [0],
+                          "acts": [["rich", 10, [["_location", [2, k]]], [False] * 5] for k in range(lo, min(lo + 60, len(locs)))]})
+        out.append((f"slot-boundary:carried{carried}:density{density}", base,
+                    {"pool": {"locs": locs, "cuwps": [], "switches": []}, "ops": [["add_triggers", trigs]]}))
+    return out
+
+
 def run(ck: vlib.Check):
     n = 80 if ck.tier == "quick" else 3000
     ck.rule = ("authored scenarios on the scx fixture and synthetic bases: triggers using every supported condition / "
                "action type (chosen uniformly over the 51 + 22 types) with boundary integers, every enum member, new and "
                "existing locations / unit-property sets / switches shared among triggers, strings new / duplicate / "
                "already present, raw unsupported entries; unit settings upserted for random units; interleaved "
-               "save+reload. The saved bytes are read by an independent reader (format description + the Coq spec "
+               "save+reload; allocation across the reserved location slot 64 on tables that do not define it. The saved bytes are read by an independent reader (format description + the Coq spec "
                "tables) and every authored argument must be found, through its reference, in the spec's field. "
                "Implementation vs extracted pipeline model byte for byte. Distinct = distinct (base, scenario).")
     drv_ok = RC.build_rich(ck, ["proofs/C04_proofs.vo"], "props/C04.v")
@@ -85,7 +106,7 @@ def run(ck: vlib.Check):
         cases.append((f"{label}#{i}", base, A.gen_scenario(rng, base)))
     known, _ = vlib.load_known_findings(PROP)
     known_keys = {f["key"]: f["text"] for f in known}
-    cases = duplicated_section_cases() + two_step_cases(bs) + cases
+    cases = duplicated_section_cases() + two_step_cases(bs) + slot_boundary_cases(rng) + cases
     impl = []
     types_seen = {"actions": set(), "conditions": set()}
     outcomes = {"ok": 0, "raises": 0}
